@@ -25,6 +25,7 @@ type pmOp struct {
 	shape, elem string
 	required    bool
 	def         any // default (prim only)
+	zeroDef     bool
 	goField     string
 }
 
@@ -96,6 +97,10 @@ func paramMatrix() []pmOp {
 				if loc != "path" && sh == "prim" {
 					def := map[string]any{"string": "dflt", "int": 7, "float": 1.5, "bool": true}[el]
 					ops = append(ops, pmOp{name: fmt.Sprintf("op%d", n), loc: loc, style: style, explode: explode, shape: sh, elem: el, required: false, def: def})
+					n++
+					// a default that is the Go zero value is a default all the same
+					zero := map[string]any{"string": "", "int": 0, "float": 0.0, "bool": false}[el]
+					ops = append(ops, pmOp{name: fmt.Sprintf("op%d", n), loc: loc, style: style, explode: explode, shape: sh, elem: el, required: false, def: zero, zeroDef: true})
 					n++
 				}
 			}
@@ -380,6 +385,9 @@ func c01DefaultCanon(opName string, o pmOp) string {
 		v = fmt.Sprintf("f64:%016x", math.Float64bits(1.5))
 	case "bool":
 		v = "true"
+	}
+	if o.zeroDef {
+		v = map[string]string{"string": `""`, "int": "0", "float": "f64:0000000000000000", "bool": "false"}[o.elem]
 	}
 	return fmt.Sprintf("%sParams{%s=some(%s)}", opName, o.goField, v)
 }
